@@ -200,3 +200,109 @@ Proof.
       destruct (sg && (two63 <=? u0) || plus (fl f) || space (fl f)); lia.
     + rewrite int_digits_mem_ok; try assumption; [reflexivity | lia].
 Qed.
+
+(* ---------- fmtUnicode ---------- *)
+Lemma to_base_acc up base : forall fuel u acc, to_base fuel up base u acc = (to_base fuel up base u [] ++ acc)%list.
+Proof.
+  induction fuel as [|k IH]; intros u acc; cbn [to_base]; [reflexivity|].
+  destruct (u <? base); [reflexivity|].
+  rewrite IH. rewrite (IH _ [_]). rewrite <- app_assoc. reflexivity.
+Qed.
+
+Lemma put_block_ok n cs ds : zlen ds + zlen cs <= n ->
+  put_block cs (Some (n - zlen ds, ds)) = Some (n - zlen (cs ++ ds), (cs ++ ds)%list).
+Proof.
+  intros H. unfold put_block. destruct (zlen cs <=? n - zlen ds) eqn:E; [|apply Z.leb_gt in E; lia].
+  rewrite zlen_app. f_equal. f_equal. lia.
+Qed.
+
+Lemma zeros_n_ok n : forall m ds, zlen ds + Z.of_nat m <= n ->
+  zeros_n m (Some (n - zlen ds, ds)) = Some (n - zlen (zeros m ++ ds), (zeros m ++ ds)%list).
+Proof.
+  induction m as [|m IH]; intros ds H; [reflexivity|].
+  cbn [zeros_n]. rewrite put_ok by lia. rewrite IH by (rewrite zlen_cons; lia).
+  rewrite zeros_snoc. reflexivity.
+Qed.
+
+Lemma encode_rune_len r : 1 <= zlen (encode_rune r) <= 4.
+Proof.
+  unfold encode_rune.
+  destruct ((0 <=? r) && (r <=? 127)); [cbv; split; discriminate|].
+  destruct ((0 <=? r) && (r <=? 2047)); [cbv; split; discriminate|].
+  destruct (negb (valid_rune r)); [cbv; split; discriminate|].
+  destruct (r <=? 65535); cbv; split; discriminate.
+Qed.
+
+(* fmtUnicode: for every operand, flag set and precision no index leaves the scratch array, and the
+   result is the list-level one (None inside = the IsPrint oracle has no entry, as in fmt_unicode) *)
+Theorem fmt_unicode_mem_ok o f u : 0 <= u < two64 -> 0 <= prec f ->
+  fmt_unicode_mem o f u = Some (fmt_unicode o f u).
+Proof.
+  intros Hu Hp. unfold fmt_unicode_mem, fmt_unicode. cbn zeta.
+  set (n := uscratch_len f).
+  set (prec0 := if precPresent (fl f) && (4 <? prec f) then prec f else 4).
+  assert (68 <= n /\ prec0 + 9 <= n /\ 4 <= prec0) as (H68 & Hn & H4).
+  { unfold n, uscratch_len, prec0. destruct (precPresent (fl f) && (4 <? prec f)) eqn:E.
+    - apply andb_prop in E. destruct E as [_ E]. apply Z.ltb_lt in E.
+      destruct (68 <? 2 + prec f + 2 + 4 + 1) eqn:E2; [apply Z.ltb_lt in E2 | apply Z.ltb_ge in E2]; lia.
+    - lia. }
+  assert (forall c s, zlen s < n -> put c (Some (n - zlen s, s)) = Some (n - zlen (c :: s), c :: s)) as P by (intros; now apply put_ok).
+  (* the quoted character, if any *)
+  set (tail := fun q : bool => (if q then ((32%N :: 39%N :: encode_rune u) ++ [39%N])%list else @nil N) : bytes).
+  assert (forall q : bool,
+            (if q then put 32%N (put 39%N (put_block (encode_rune u) (put 39%N (Some (@pair Z bytes n (@nil N)))))) else Some (@pair Z bytes n (@nil N)))
+            = Some (n - zlen (tail q), tail q) /\ zlen (tail q) <= 7) as Htail.
+  { intros [|]; unfold tail.
+    - pose proof (encode_rune_len u) as [L1 L4].
+      assert (Some (@pair Z bytes n (@nil N)) = Some (n - zlen (@nil N), @nil N)) as E0 by (change (zlen []) with 0; rewrite Z.sub_0_r; reflexivity).
+      rewrite E0.
+      rewrite P by (change (zlen []) with 0; lia).
+      rewrite put_block_ok by (rewrite zlen_cons; change (zlen []) with 0; lia).
+      rewrite P by (rewrite zlen_app, zlen_cons; change (zlen []) with 0; lia).
+      rewrite P by (rewrite zlen_cons, zlen_app, zlen_cons; change (zlen []) with 0; lia).
+      split; [reflexivity|]. cbn [app]. rewrite !zlen_cons, zlen_app, zlen_cons. change (zlen []) with 0. lia.
+    - split; [change (zlen []) with 0; rewrite Z.sub_0_r; reflexivity | change (zlen []) with 0; lia]. }
+  assert (forall q : bool,
+    match
+      (let s1 := if q then put 32%N (put 39%N (put_block (encode_rune u) (put 39%N (Some (@pair Z bytes n (@nil N)))))) else Some (@pair Z bytes n (@nil N)) in
+       let before := match s1 with Some (_, ds) => zlen ds | None => 0 end in
+       let s2 := digits_mem 70 true 16 u s1 in
+       let written := match s2 with Some (_, ds) => zlen ds - before | None => 0 end in
+       let s3 := zeros_n (Z.to_nat (prec0 - written)) s2 in
+       put 85%N (put 43%N s3))
+    with
+    | Some (_, ds) => Some (Some (pad (set_zero f false) ds))
+    | None => None
+    end = Some (Some (pad (set_zero f false)
+            ((85%N :: 43%N :: zeros (Z.to_nat (prec0 - zlen (to_base 70 true 16 u []))) ++ to_base 70 true 16 u []) ++ tail q)))) as Hmain.
+  { intros q. cbn zeta. destruct (Htail q) as [E1 L7]. rewrite E1.
+    assert (0 <= u < 16 ^ Z.of_nat 16) as Hu16 by (unfold two64 in Hu; change (16 ^ Z.of_nat 16) with 18446744073709551616; lia).
+    destruct (digits_mem_ok true 16 n ltac:(lia) 70%nat 16%nat u (tail q) ltac:(lia) Hu16) as [E2 L2]; [lia|].
+    rewrite E2. rewrite (to_base_acc true 16 70 u (tail q)) in *.
+    set (d0 := to_base 70 true 16 u []) in *.
+    rewrite zlen_app in L2.
+    replace (zlen (d0 ++ tail q) - zlen (tail q)) with (zlen d0) by (rewrite zlen_app; lia).
+    assert (1 <= zlen d0) as D1.
+    { pose proof (to_base_nonempty 70 true 16 u [] (or_introl (Nat.lt_0_succ 69))) as Hne. fold d0 in Hne.
+      destruct d0 as [|c0 r0]; [congruence|]. rewrite zlen_cons. pose proof (zlen_nonneg r0). lia. }
+    rewrite zeros_n_ok by (rewrite zlen_app; lia).
+    set (m := Z.to_nat (prec0 - zlen d0)).
+    assert (zlen (zeros m ++ d0 ++ tail q) + 2 <= n) as Room.
+    { rewrite !zlen_app, zlen_zeros. unfold m. lia. }
+    rewrite P by lia. rewrite P by (rewrite zlen_cons; lia).
+    cbn [app]. rewrite <- app_assoc. reflexivity. }
+  destruct (sharp (fl f) && (u <=? MaxRune)).
+  - destruct (olookup o (KIsPrint u)) as [v|]; [|reflexivity].
+    assert (forall (b : bool), (match (if b then Some true else Some false) with Some q => Some q | None => None end) = Some b) as _ by (intros []; reflexivity).
+    destruct v as [|c r]; [exact (Hmain false)|].
+    destruct r as [|c2 r2].
+    + destruct (N.eq_dec c 49) as [->|Hne].
+      * exact (Hmain true).
+      * assert (forall A (x y : A), match c with 49%N => x | _ => y end = y) as Hc.
+        { intros A x y. destruct c as [|p]; [reflexivity|]. do 6 (destruct p as [p|p|]; try reflexivity). congruence. }
+        rewrite !Hc. exact (Hmain false).
+    + assert (forall A (x y : A), match c with 49%N => y | _ => y end = y) as Hc.
+      { intros A x y. destruct c as [|p]; [reflexivity|]. do 6 (destruct p as [p|p|]; try reflexivity). }
+      destruct c as [|p]; [exact (Hmain false)|]. do 6 (destruct p as [p|p|]; try exact (Hmain false)).
+  - exact (Hmain false).
+Qed.
